@@ -9,6 +9,9 @@ from .common import *
 from .core import VERIF, Ctx, Infra, casehash, log
 
 
+# wall-clock limit of one TLC run: the machine is shared, a run of one minute has been seen to take fifteen under load
+TLC_LIMIT = 3600
+
 ROTATE = ["string", "uint64", "time", "bytes", "float32", "bool", "int64", "uint8", "RPtrOE", "int32", "N2", "float64", "NI8", "Items", "NSl",
           "int16", "uint", "RMapV", "uint16", "int", "uint32", "RSlice"]
 
@@ -91,10 +94,10 @@ def c18(ctx: Ctx):
         shutil.copytree(ctx.specdir, mcdir)
         with cf.ThreadPoolExecutor(max_workers=3) as ex:
             # D (the generator model against the contract, outside the listed findings) runs next to F
-            f0 = ex.submit(ctx.tlc, "MC_C18", "MC_C18_%s.cfg" % tier, cwd=mcdir, workers=max(2, (os.cpu_count() or 4) // 2),
+            f0 = ex.submit(ctx.tlc, "MC_C18", "MC_C18_%s.cfg" % tier, cwd=mcdir, timeout=TLC_LIMIT, workers=max(2, (os.cpu_count() or 4) // 2),
                            label="D L2 generator model => L1 (outside listed findings)")
-            f1 = ex.submit(ctx.tlc, "Gen_C18", "Gen_C18_run.cfg", label="F generate types x options (BFS, deep base %s)" % rot)
-            f2 = ex.submit(ctx.tlc, "Gen_C18", "Gen_C18_run_deep.cfg", workers=1, cwd=deepdir,
+            f1 = ex.submit(ctx.tlc, "Gen_C18", "Gen_C18_run.cfg", timeout=TLC_LIMIT, label="F generate types x options (BFS, deep base %s)" % rot)
+            f2 = ex.submit(ctx.tlc, "Gen_C18", "Gen_C18_run_deep.cfg", workers=1, cwd=deepdir, timeout=TLC_LIMIT,
                            label="F generate mutually recursive families x options (BFS)")
             f0.result()
             f1.result()
@@ -163,4 +166,4 @@ def c18(ctx: Ctx):
     ctx.extra["generator_runs"] = runs     # generations with fresh generators (identical observations share a log line)
     # one TLC process per core in quick (a single round), three rounds in thorough
     per = nlines // 16 + 1 if nlines < 16000 else nlines // 48 + 1
-    ctx.validate("Trace_C18", "Trace_C18.cfg", logp, chunk_lines=per)
+    ctx.validate("Trace_C18", "Trace_C18.cfg", logp, chunk_lines=per, timeout=TLC_LIMIT)
